@@ -550,6 +550,15 @@ func genC03(r *rand.Rand, tier string) []interface{} {
 						conns = append(conns, sessConn{Groups: mutate(base, gi, idx, rep)})
 						in.Conns = conns
 						out = append(out, in)
+						if rep.T == "close" {
+							// the same, against a server that keeps the connection open after closing the stream and
+							// waits for the client's closing tag (RFC 6120 4.4): the closed stream has to be noticed
+							in2 := in
+							in2.Tag = "hold:" + labels[gi]
+							cs := append([]sessConn{}, conns[:len(conns)-1]...)
+							in2.Conns = append(cs, sessConn{Groups: mutate(base, gi, idx, rep), Hold: true})
+							out = append(out, in2)
+						}
 					}
 				}
 			}
